@@ -613,7 +613,13 @@ def try_discharge(prog, site):
                 if _len_of(e) is not None and _len_of(e) == _strip(recv):
                     continue
                 if desc_contains(e, lambda y: y[0] == "call" and re.search(r"::(find|rfind|len_utf8|char_indices|match_indices|floor_char_boundary)$", y[1]) is not None):
-                    continue
+                    # ... positions in the string that is sliced, not in a copy of it that may have other byte offsets
+                    # (`s.to_uppercase().char_indices()` positions do not index `s`)
+                    pos = [c for c in core.desc_calls(e) if re.search(r"::(find|rfind|char_indices|match_indices|floor_char_boundary)$", c[1]) and c[2]]
+                    foreign = [c for c in pos if _strip(c[2][0]) != _strip(recv) and
+                               desc_contains(c[2][0], lambda y: y[0] == "call" and re.search(r"::(to_uppercase|to_lowercase|to_ascii_uppercase|to_ascii_lowercase|replace|replacen|trim\w*|repeat|to_string|to_owned|format|strip_\w+|split\w*)$", y[1]) is not None)]
+                    if not foreign:
+                        continue
                 ok = False
             if ok:
                 return "char-boundary", "slice bounds are 0 / len() / positions returned by find or char_indices"
